@@ -1976,6 +1976,262 @@ def sec_parse_driven(ctx, B):
     ctx.extra['oracle_only_never_accepted'] = never_accepted
 
 
+# ----------------------------------------------------------------------------- histories: parse, mutate the result, parse again
+def history_parsers():
+    """name -> parse(bytes) for every parser entry point covered by this check (the registry classes
+    through their protocol's from_bytes / create; the hand-modelled and oracle-only codecs directly)"""
+    from translate import c18_registries as R
+    from bumble import l2cap, sdp, rfcomm, core, hci, avdtp, avc, rtp, a2dp, data_types
+    import inspect
+    out = {}
+    for e in R.registries():
+        out[f'class:{e.proto}:{e.cls.__name__}'] = e.parse
+    out['core:AdvertisingData.from_bytes'] = core.AdvertisingData.from_bytes
+    out['core:UUID.from_bytes'] = core.UUID.from_bytes
+    out['l2cap:EnhancedControlField.from_bytes'] = l2cap.EnhancedControlField.from_bytes
+    out['l2cap:L2CAP_PDU.from_bytes'] = l2cap.L2CAP_PDU.from_bytes
+    out['l2cap:L2CAP_Control_Frame.from_bytes'] = l2cap.L2CAP_Control_Frame.from_bytes
+    out['l2cap:L2CAP_Control_Frame.decode_configuration_options'] = l2cap.L2CAP_Control_Frame.decode_configuration_options
+    out['sdp:DataElement.from_bytes'] = sdp.DataElement.from_bytes
+    out['rfcomm:RFCOMM_Frame.from_bytes'] = rfcomm.RFCOMM_Frame.from_bytes
+    out['rfcomm:RFCOMM_MCC_PN.from_bytes'] = rfcomm.RFCOMM_MCC_PN.from_bytes
+    out['rfcomm:RFCOMM_MCC_MSC.from_bytes'] = rfcomm.RFCOMM_MCC_MSC.from_bytes
+    out['rfcomm:RFCOMM_Frame.parse_mcc'] = lambda d: rfcomm.RFCOMM_Frame.parse_mcc(d)
+    out['hci:Address.parse_address'] = lambda d: hci.Address.parse_address(d, 0)
+    out['hci:Address.parse_random_address'] = lambda d: hci.Address.parse_random_address(d, 0)
+    out['hci:Address.parse_address_preceded_by_type'] = lambda d: hci.Address.parse_address_preceded_by_type(d, 1)
+    out['avdtp:EndPointInfo.from_bytes'] = avdtp.EndPointInfo.from_bytes
+    out['avdtp:ServiceCapabilities.parse_capabilities'] = avdtp.ServiceCapabilities.parse_capabilities
+    out['avc:Frame.from_bytes'] = avc.Frame.from_bytes
+    out['rtp:MediaPacket.from_bytes'] = rtp.MediaPacket.from_bytes
+    out['a2dp:SbcMediaCodecInformation.from_bytes'] = a2dp.SbcMediaCodecInformation.from_bytes
+    out['a2dp:AacMediaCodecInformation.from_bytes'] = a2dp.AacMediaCodecInformation.from_bytes
+    out['a2dp:VendorSpecificMediaCodecInformation.from_bytes'] = a2dp.VendorSpecificMediaCodecInformation.from_bytes
+    for name, cls in sorted(inspect.getmembers(data_types, inspect.isclass)):
+        if cls.__module__ == data_types.__name__ and issubclass(cls, core.DataType) and getattr(cls, 'ad_type', None) is not None:
+            out[f'data_types:{name}.from_bytes'] = cls.from_bytes
+    return out
+
+
+def _immutable(v):
+    import enum
+    return v is None or isinstance(v, (int, str, bytes, float, enum.Enum, frozenset))
+
+
+def history_snapshot(v, depth=0):
+    """what a parse result says: its octets, its canonical field values, its public attributes"""
+    from translate import c18_registries as R
+    import enum
+    import re
+    if isinstance(v, enum.Enum):
+        return ('enum', type(v).__name__, v.value)
+    if isinstance(v, (bytes, bytearray, memoryview)):
+        return bytes(v)
+    if _immutable(v):
+        return v
+    if isinstance(v, (list, tuple)):
+        return [history_snapshot(x, depth + 1) for x in v]
+    if isinstance(v, dict):
+        return sorted((repr(k), history_snapshot(x, depth + 1)) for k, x in v.items())
+    out = [type(v).__name__]
+    ok, b = attempt(lambda: bytes(v)) if hasattr(v, '__bytes__') else (False, None)
+    out.append(('bytes', b) if ok else ('bytes', None))
+    try:
+        out.append(('canon', R.canon(v)))
+    except Exception:  # noqa: BLE001
+        out.append(('canon', None))
+    if depth < 3 and hasattr(v, '__dict__'):
+        for k, x in sorted(vars(v).items()):
+            if k.startswith('_') or callable(x) or k == 'name':
+                continue
+            try:
+                out.append((k, history_snapshot(x, depth + 1)))
+            except Exception:  # noqa: BLE001
+                out.append((k, re.sub(r'0x[0-9a-f]+', '', repr(x))))
+    return out
+
+
+HISTORY_EXTRA = bytes.fromhex('03030f18')       # a Complete List of 16-bit Service UUIDs structure
+
+
+def history_mutate(v):
+    """edit a parse result in place the way an application does (append a scan response to the
+    advertising data, edit a field, extend a list): every public list / dict / bytearray attribute is
+    extended in place, every bytes / int attribute is rebound, and drop the cached serialisation.
+    Nested objects are not entered (a UUID found inside may be the registered, shared one)."""
+    from bumble import core
+    did = []
+    if isinstance(v, core.AdvertisingData):
+        v.append(HISTORY_EXTRA)
+        did.append('append')
+    objs = [v] + (list(v) if isinstance(v, (list, tuple)) else [])
+    for o in objs:
+        if isinstance(o, list):
+            o.append(o[0] if o else 0)
+            did.append('list.append')
+            continue
+        if isinstance(o, dict):
+            o['__c18__'] = 1
+            did.append('dict.set')
+            continue
+        if isinstance(o, core.UUID) or _immutable(o) or not hasattr(o, '__dict__'):
+            continue
+        for k, x in list(vars(o).items()):
+            try:
+                if isinstance(x, list):
+                    x.append(x[0] if x else (1, b'\x5a'))
+                elif isinstance(x, bytearray):
+                    x.append(0x5A)
+                elif isinstance(x, dict):
+                    x['__c18__'] = 1
+                elif isinstance(x, (bytes,)):
+                    setattr(o, k, x + b'\x5a')
+                elif isinstance(x, bool):
+                    setattr(o, k, not x)
+                elif type(x) is int:
+                    setattr(o, k, x ^ 1)
+                else:
+                    continue
+                did.append(k)
+            except Exception:  # noqa: BLE001
+                pass
+    return did
+
+
+def history_oracle(entry, data, between=()):
+    """parse(X); mutate the result; other parses; parse(X) again: the second result must be a FRESH
+    object saying exactly what a parse of X says (the first result, recorded before the mutation):
+    parse is a function of the bytes, whatever has been parsed or edited earlier in the process.
+    -> None or (signature, description)"""
+    parsers = history_parsers()
+    if entry not in parsers:
+        return ('replay:unsupported', f'no parser entry point {entry}')
+    parse = parsers[entry]
+    ok, r1 = attempt(parse, data)
+    if not ok:
+        return None
+    before = history_snapshot(r1)
+    did = history_mutate(r1) if entry != 'core:UUID.from_bytes' else []        # UUID objects ARE the registry, by design
+    for other, d in between:
+        if other in parsers:
+            ok, r = attempt(parsers[other], d)
+            if ok and other != 'core:UUID.from_bytes':
+                history_mutate(r)
+    ok, r2 = attempt(parse, data)
+    short = entry.split(':', 1)[1].replace('.from_bytes', '') if not entry.startswith('class:') else entry.split(':', 2)[2]
+    proto = entry.split(':')[1] if entry.startswith('class:') else entry.split(':')[0]
+    if not ok:
+        return (f'{proto}:{short}:history', f'{entry}({data[:24].hex()}) succeeds, then after an edit of its result the same octets are rejected: {r2}')
+    if r2 is r1 and did:
+        return (f'{proto}:{short}:history', f'{entry}({data[:24].hex()}) returns the SAME object for equal octets: the edit ({", ".join(did[:4])}) '
+                                            f'made to the first result is visible in the second')
+    after = history_snapshot(r2)
+    if after != before:
+        diff = next((f'{a!r:.100} -> {b!r:.100}' for a, b in zip(before, after) if a != b), f'{before!r:.100} -> {after!r:.100}') \
+            if isinstance(before, list) and isinstance(after, list) else f'{before!r:.100} -> {after!r:.100}'
+        return (f'{proto}:{short}:history', f'{entry}({data[:24].hex()}) parsed twice with an edit of the first result in between gives different values: {diff}')
+    return None
+
+
+def history_samples(rng, entry):
+    """well-formed (mostly) octets for one entry point; registry classes are built from their field specs"""
+    from translate import c18_registries as R
+    from bumble import avdtp
+    if entry.startswith('class:'):
+        _, proto, name = entry.split(':', 2)
+        e = next(x for x in R.registries() if x.proto == proto and x.cls.__name__ == name)
+        try:
+            return [R.payload_bytes(e, e.build(R.gen_kwargs(rng, name, e.fields)))]
+        except Exception:  # noqa: BLE001
+            return []
+    if entry == 'core:AdvertisingData.from_bytes':
+        out = [bytes.fromhex('020106') + bytes([5, 9]) + b'abcd']
+        d = b''
+        for _ in range(rng.choice([0, 1, 2, 3])):
+            v = rng.bytes(rng.choice([0, 1, 4, 9]))
+            d += bytes([len(v) + 1, rng.below(256)]) + v
+        return out + [d]
+    if entry == 'core:UUID.from_bytes':
+        return [rng.bytes(rng.choice([2, 4, 16]))]
+    if entry == 'l2cap:EnhancedControlField.from_bytes':
+        return [rng.bytes(2)]
+    if entry == 'l2cap:L2CAP_PDU.from_bytes':
+        b = rng.bytes(rng.choice([0, 1, 7]))
+        return [struct.pack('<HH', len(b), rng.choice([1, 4, 0x40])) + b]
+    if entry == 'l2cap:L2CAP_Control_Frame.from_bytes':
+        return [bytes([rng.choice([0x02, 0x0A, 0x0B, 0x7F]), rng.below(256)]) + struct.pack('<HHH', 4, 1, 0x40)]
+    if entry.endswith('decode_configuration_options'):
+        return [bytes.fromhex('01020002'), bytes.fromhex('0102a000' '0409030000000000000000')]
+    if entry == 'sdp:DataElement.from_bytes':
+        return [bytes(sdp_build(sdp_gen_tree(rng, 3))), bytes(sdp_build(('seq', [('u', 2, 0x1234), ('seq', []), ('text', b'ab')])))]
+    if entry == 'rfcomm:RFCOMM_Frame.from_bytes':
+        return [rfcomm_spec_frame(0xEF, rng.below(2), rng.below(62), 0, rng.bytes(rng.choice([0, 3, 130]))),
+                rfcomm_spec_frame(0x2F, 1, 0, 1, b'')]
+    if entry == 'rfcomm:RFCOMM_MCC_PN.from_bytes':
+        return [bytes([rng.below(64), 0xE0, rng.below(64), 0]) + struct.pack('<H', rng.below(1 << 15)) + bytes([0, rng.below(8)])]
+    if entry == 'rfcomm:RFCOMM_MCC_MSC.from_bytes':
+        return [bytes([(rng.below(62) << 2) | 3, rng.below(256) | 1])]
+    if entry == 'rfcomm:RFCOMM_Frame.parse_mcc':
+        v = rng.bytes(rng.choice([0, 2, 8]))
+        return [bytes([(rng.choice([0x20, 0x38]) << 2) | (rng.below(2) << 1) | 1, (len(v) << 1) | 1]) + v]
+    if entry.startswith('hci:Address.parse_address_preceded'):
+        return [bytes([rng.below(4)]) + rng.bytes(6)]
+    if entry.startswith('hci:Address'):
+        return [rng.bytes(6)]
+    if entry == 'avdtp:EndPointInfo.from_bytes':
+        return [bytes([rng.below(64) << 2 | rng.below(2) << 1, rng.below(3) << 4 | rng.below(2) << 3])]
+    if entry == 'avdtp:ServiceCapabilities.parse_capabilities':
+        return [bytes.fromhex('0100' '0706' '0000' '21150235'), bytes([1, 0, 4, 2, rng.below(256), rng.below(256)])]
+    if entry == 'avc:Frame.from_bytes':
+        return [bytes([rng.choice([0, 9]), 0x48, 0x7C, rng.below(256), 0]), bytes([0, 0x48, 0x00, 0x00, 0x19, 0x58]) + rng.bytes(4)]
+    if entry == 'rtp:MediaPacket.from_bytes':
+        cc = rng.choice([0, 0, 2])
+        return [bytes([0x80 | cc, rng.below(256)]) + rng.bytes(10 + 4 * cc + rng.choice([0, 5]))]
+    if entry.startswith('a2dp:Sbc'):
+        return [rng.bytes(4)]
+    if entry.startswith('a2dp:Aac'):
+        return [rng.bytes(6)]
+    if entry.startswith('a2dp:Vendor'):
+        return [rng.bytes(rng.choice([6, 9]))]
+    if entry.startswith('data_types:'):
+        return [rng.bytes(n) for n in (1, 2, 4, 6, 7, 16, 17)]
+    return []
+
+
+def sec_history(ctx, B):
+    """every parser entry point: parse(X) -> edit the result in place -> (other parses, edited too) ->
+    parse(X) again must give a fresh object with the value a parse of X has.  Oracle only: in the
+    models parse IS a function (a Gallina term); this is what ties the code to that."""
+    rng = ctx.rng.fork('history')
+    parsers = history_parsers()
+    names = sorted(parsers)
+    pool = []
+    exercised, never = {}, []
+    for rounds in range(ctx.n(2, 30)):
+        for entry in names:
+            for d in history_samples(rng, entry):
+                if attempt(parsers[entry], d)[0]:
+                    pool.append((entry, d))
+                    if len(pool) > 64:
+                        pool.pop(rng.below(len(pool)))
+                else:
+                    continue
+                between = [pool[rng.below(len(pool))] for _ in range(rng.choice([0, 1, 3]))]
+                if rng.chance(1, 3):
+                    between.append((entry, d[:-1] + bytes([d[-1] ^ 1]) if d else d))
+                bad = history_oracle(entry, d, between)
+                exercised[entry] = exercised.get(entry, 0) + 1
+                ctx.case(('history', entry, d, tuple(between)), True)
+                ctx.count('history.cases')
+                if bad:
+                    ctx.violation(bad[0], bad[1], {'kind': 'history', 'entry': entry, 'data': d.hex(),
+                                                   'between': [[o, x.hex()] for o, x in between]})
+    never = [n for n in names if n not in exercised]
+    ctx.extra['history_entry_points'] = len(exercised)
+    ctx.extra['history_never_accepted'] = never
+    ctx.count('history.entry-points', len(exercised))
+
+
 # ----------------------------------------------------------------------------- replay / corpus / search
 def folder_items_oracle(n_items, seed):
     """AVRCP GetFolderItemsResponse with n browseable items: the parsed items serialise as the items sent"""
@@ -2107,6 +2363,8 @@ def oracle_replay(r):
         d = bytes.fromhex(r['data'])
         p = core.AdvertisingData.from_bytes(d)
         return None if bytes(p) == d else ('core:AdvertisingData:bytes', f'{d.hex()} re-serialises as {bytes(p).hex()}')
+    if k == 'history':
+        return history_oracle(r['entry'], bytes.fromhex(r['data']), [(o, bytes.fromhex(x)) for o, x in r.get('between', [])])
     return ('replay:unsupported', f'replay kind {k}: re-run ./check C18 with the same VERIF_SEED to reproduce')
 
 
@@ -2212,4 +2470,4 @@ def run(ctx):
 
 
 SECTIONS[:] = [sec_ertm, sec_l2cap_misc, sec_rfcomm, sec_sdp, sec_uuid, sec_address, sec_adv, sec_av, sec_registries,
-               sec_registry_model, sec_xregistry_model, sec_avrcp_model, sec_a2dp, sec_parse_driven]
+               sec_registry_model, sec_xregistry_model, sec_avrcp_model, sec_a2dp, sec_parse_driven, sec_history]
